@@ -80,6 +80,7 @@ type alphSim struct {
 	nCount    int
 	onCount   map[int]func() // run (under the lock) right after the k-th current-count request was answered
 	faults    map[string]int
+	aheadHold  bool // the count stays two events ahead of the pages until the next transaction is emitted
 	countAhead int // this many of the next current-count answers report two events more than the node can page out (their block was replaced in between)
 	drain     func(n int) // called under the lock before every request is answered: n = requests answered so far
 }
@@ -171,6 +172,8 @@ func (s *alphSim) RoundTrip(r *http.Request) (*http.Response, error) {
 			n = len(s.govEvents)
 			if s.countAhead > 0 {
 				s.countAhead--
+				n += 2
+			} else if s.aheadHold {
 				n += 2
 			}
 		}
